@@ -1657,10 +1657,12 @@ class ForAll(BinaryOperator):
         finally:
             self.variable._eval_parent_, self.condition._eval_parent_ = variable_prev, condition_prev
 
-        self.solution_set = candidates or []
+        # (kept in a local as well: the same for_all object may be entered again, from another place of the condition,
+        # while this evaluation is suspended at a yield - that evaluation has solutions of its own.)
+        solution_set = self.solution_set = candidates or []
 
         # Yield the remaining bindings (non-universal) merged with the incoming sources
-        for sol in self.solution_set:
+        for sol in solution_set:
             out = copy(sol)
             out.update(sources)
             self._is_false_ = False
@@ -1672,7 +1674,7 @@ class ForAll(BinaryOperator):
             def key(binding):
                 return tuple(sorted((k, v.id_) for k, v in binding.items() if k in free_ids))
             free_ids = {v._id_ for v in self.free_variables}
-            solved = {key({**sources, **sol}) for sol in self.solution_set}
+            solved = {key({**sources, **sol}) for sol in solution_set}
             domains = {v._id_: v._evaluate__(copy(sources)) for v in self.free_variables if v._id_ not in sources}
             for extra in generate_combinations(domains):
                 binding = {var_id: val[var_id] for var_id, val in extra.items()}
